@@ -373,6 +373,10 @@ def _export_jobs(jobs, path, copytree):
         )
 
     # Check leaf/node consistency
+    if len(normalized) > 1 and any(norm in ("", os.curdir) for norm in normalized):
+        raise RuntimeError(
+            "A job can only be exported to the target itself if it is the only job."
+        )
     _check_directory_structure_validity(normalized)
 
     for src, dst in paths.items():
